@@ -683,6 +683,7 @@ pub fn run(args: &Args) -> Shard {
             "shutdown" => crate::conc2::run_shutdown(focus, seed, index),
             "stall" => crate::conc2::run_stall(focus, seed, index),
             "stress" => crate::conc2::run_stress(focus, seed, index, args),
+            "bare" => crate::conc2::run_bare(focus, seed, index, args),
             other => { eprintln!("unknown scenario {}", other); std::process::exit(2); }
         };
         shard.case(out.signature, out.nontrivial);
@@ -692,10 +693,12 @@ pub fn run(args: &Args) -> Shard {
         index += stride;
         done += 1;
     }
-    let mut visits = J::obj();
-    for (site, n) in sched().visit_counts() { visits.set(format!("{:?}", site), J::Int(n as i128)); }
-    shard.extra = J::obj().with("site_visits", visits).with("gate_holds", J::Int(sched().gate_holds.load(Ordering::SeqCst) as i128))
-        .with("gate_timeouts", J::Int(sched().gate_timeouts.load(Ordering::SeqCst) as i128));
+    if scenario != "bare" {
+        let mut visits = J::obj();
+        for (site, n) in sched().visit_counts() { visits.set(format!("{:?}", site), J::Int(n as i128)); }
+        shard.extra = J::obj().with("site_visits", visits).with("gate_holds", J::Int(sched().gate_holds.load(Ordering::SeqCst) as i128))
+            .with("gate_timeouts", J::Int(sched().gate_timeouts.load(Ordering::SeqCst) as i128));
+    }
     shard
 }
 
